@@ -454,11 +454,17 @@ func ruleQ2(c *an.Ctx, quote *ssa.Function) {
 			fmt.Sprintf("the escape \\%s written by quoteString must be matched by the lexer's string rule (sample %s)", l, sample))
 		if unq != nil {
 			has := false
-			an.Instrs(unq, func(in ssa.Instruction) {
-				if bo, ok := in.(*ssa.BinOp); ok && bo.Op == token.EQL && an.IsIntConst(bo.Y, int64(l[0])) {
-					has = true
+			// unquoteBytes and the private helpers its escape switch may have been moved into
+			for _, host := range append([]*ssa.Function{unq}, familyOf(c.P, unq, 1)...) {
+				if host.Pkg != unq.Pkg {
+					continue
 				}
-			})
+				an.Instrs(host, func(in ssa.Instruction) {
+					if bo, ok := in.(*ssa.BinOp); ok && bo.Op == token.EQL && an.IsIntConst(bo.Y, int64(l[0])) {
+						has = true
+					}
+				})
+			}
 			c.Check("Q2", "escape-decoded-by-unquote(\\"+l+")", unq.Pos(), has,
 				"unquoteBytes must have an arm for the escape \\"+l+" (otherwise it is read back as the bare letter)")
 		}
